@@ -1,6 +1,8 @@
-\* C03, environment classes in depth: control-type messages only, with the persisted blacklist
-\* (temporary / permanent / range entries, IPManager re-created from the storage) and clients whose
-\* stored secret this server cannot decrypt (responses under the right key and under the empty key).
+\* C03, every environment action together with every message class and both connection types: bans,
+\* black- and whitelist entries of every shape persisted in the shared storage, the IPManager re-created
+\* from it, clients whose stored secret this server cannot decrypt (every record shape; responses under
+\* the right key and under the empty key), secrets reset after they were handed out, expiry, binding.
+\* Model-checked to a moderate depth and used for the random deep behaviours.
 CONSTANTS
   Conn <- Conn2
   Client <- Client2
@@ -8,8 +10,8 @@ CONSTANTS
   MaxFail = 3
   MaxCtl = 0
   Faults = {}
-  Ops = {"Msg", "Blacklist", "Reload", "Corrupt"}
-  Types = {"control"}
+  Ops = {"Msg", "Ban", "Blacklist", "Whitelist", "Reload", "Corrupt", "Rekey", "Delete", "Expire", "Bind"}
+  Types = {"control", "tunnel"}
   PreAccept = TRUE
   Fixes = @@FIXES@@
   Split = FALSE
